@@ -91,7 +91,7 @@ class Obj:
 
 class Frame:
     __slots__ = ('fn', 'block', 'idx', 'regs', 'prev', 'allocas', 'visits', 'ret_dest', 'unwind_to',
-                 'normal_to')
+                 'normal_to', 'catch')
 
     def __init__(self, fn):
         self.fn = fn
@@ -104,6 +104,7 @@ class Frame:
         self.ret_dest = None
         self.unwind_to = None
         self.normal_to = None
+        self.catch = None
 
     def copy(self):
         f = Frame.__new__(Frame)
@@ -117,6 +118,7 @@ class Frame:
         f.ret_dest = self.ret_dest
         f.unwind_to = self.unwind_to
         f.normal_to = self.normal_to
+        f.catch = self.catch
         return f
 
 
@@ -1144,7 +1146,14 @@ class Engine:
             if st.nforks != plen:
                 sym += 1        # the path forked since the last visit: a "real" (symbolic) iteration
             fr.visits[label] = (n, st.nforks, sym)
-            if sym > self.loop_bound or n > self.concrete_loop_bound:
+            lb = self.loop_bound
+            if sym > lb and self.loop_bound_overrides:
+                where = self.loc(ins)
+                for pat, b_ in self.loop_bound_overrides:
+                    if pat in where:
+                        lb = b_
+                        break
+            if sym > lb or n > self.concrete_loop_bound:
                 self.oblige(st, 'bound', None, 'loop:%s:%s' % (fr.fn.name[-24:], label), ins,
                             'loop bound (%d symbolic / %d total iterations) exceeded at %s' % (
                                 self.loop_bound, self.concrete_loop_bound, self.loc(ins)))
@@ -1377,7 +1386,9 @@ class Engine:
             st.retval = rv
             return None
         caller = st.frames[-1]
-        if fr.ret_dest is not None:
+        if fr.catch is not None:
+            caller.regs[fr.catch] = 0      # verif_try: the function returned normally
+        elif fr.ret_dest is not None:
             caller.regs[fr.ret_dest] = rv
         if fr.normal_to is not None:
             self.goto(st, caller, fr.normal_to, None)
@@ -1391,6 +1402,10 @@ class Engine:
                 st.live[oid] = False
             if not st.frames:
                 break
+            if fr.catch is not None:
+                st.frames[-1].regs[fr.catch] = 1   # verif_try: caught
+                st.unwinding = None
+                return None
             if fr.unwind_to is not None:
                 caller = st.frames[-1]
                 self.goto(st, caller, fr.unwind_to, ins)
@@ -1688,3 +1703,6 @@ class Engine:
     stop_on_assert = False
     mark_hook = None
     concrete_loop_bound = 200
+    # loops whose trip count is fixed by the data structure (slot scans) get their real bound; everything else
+    # (retry loops) keeps the small symbolic bound
+    loop_bound_overrides = [('src/debt/mod.rs', 12), ('src/debt/fast.rs', 10), ('harness/src/', 12)]
